@@ -24,7 +24,7 @@ var callerSites = map[string]bool{
 	"tubes.Muxer.Stop:enter": true, "tubes.Muxer.Stop:stopping": true, "tubes.Muxer.Stop:tubes-closed": true,
 	"tubes.Muxer.Stop:before-underlying-close": true, "tubes.Muxer.reapTube:closed": true,
 	"tubes.Reliable.Close:enter": true, "tubes.Unreliable.Close:enter": true, "tubes.Unreliable.Close:state-published": true,
-	"transport.Client.Handshake:elected": true, "transport.Client.Handshake:before-publish": true,
+	"transport.Client.Handshake:elected": true, "transport.Client.Handshake:before-publish": true, "transport.Client.Handshake:before-open": true,
 	"transport.Client.Close:elected": true, "transport.Client.Close:socket-closed": true,
 	"transport.Server.Close:elected": true, "transport.Server.Close:socket-closed": true, "transport.Server.Close:workers-done": true,
 	"transport.Server.Serve:started": true, "transport.Handle.Close:enter": true,
